@@ -2,6 +2,8 @@
 (* Generation instance of Lattice.tla: one JSON line per case with the exact values the           *)
 (* specification computes.                                                                          *)
 (*   Mode = "pair"   : every ordered pair (first alphabet x second alphabet)          -> C08      *)
+(*   Mode = "sliver" : large boxes whose overlap is a sliver, replayed 10 000 times smaller  -> C08   *)
+(*                     (boxes of side 0.1 .. 0.2 whose overlap has an area of a few 1e-6)            *)
 (*   Mode = "own"    : every multiset of 1..3 boxes of the own-area alphabet           -> C15      *)
 (*   Mode = "ownsim" : random lists of 4..8 axis-aligned boxes (TLC -simulate)         -> C15      *)
 (* Two-stage Next: the first box is chosen in the first step so that TLC's workers share the rest. *)
@@ -21,6 +23,11 @@ YB == T({-3, -1, 0, 1, 2}, {-4, -3, -1, 0, 1, 2, 4})
 WB == {1, 2, 4}
 HB == T({2, 3}, {2, 3, 6})
 KB == T({0, 1, 2, -1}, {0, 1, 2, -1, -4, 7})
+(* slivers: a is 1000 x 1000 (or 1000 x 2000) units, b overlaps it by half a unit / one unit / touches / misses it;
+   the replay shrinks the pair by SliverScale, so the overlap is 5e-5 wide on boxes of side 0.1 *)
+SliverScale == <<1, 10000>>
+SA == [x : {0}, y : {0}, w : {2000}, h : {2000, 4000}, k : {0, 1}]
+SB == [x : {1998, 1999, 2000, 2001, -1999}, y : {0, 500, 1999}, w : {2000}, h : {2000}, k : {0, 2, -1}]
 ABoxes == [x : XA, y : YA, w : WA, h : HA, k : KA]
 BBoxes == [x : XB, y : YB, w : WB, h : HB, k : KB]
 (* own areas: lists <<a>>, <<a, b>>, <<a, b, d>> with a axis-aligned, b possibly rotated by a quarter turn and d by
@@ -43,6 +50,13 @@ PairCase(a, b) ==
    areaA16 |-> Area16(a), areaB16 |-> Area16(b), toofar |-> TooFar(a, b), touching |-> Touching(a, b),
    d16 |-> D16(a, b), ra16 |-> R16(a), rb16 |-> R16(b), cls |-> Class(a, b), edge |-> SharedEdgeLine(a, b),
    aligned |-> (a.k % 2 = 0 /\ b.k % 2 = 0)]
+(* sliver pairs: the pre-filter verdict is left open here (its integer form squares numbers that do not fit TLC's integers
+   at this size); an overlapping pair is never "too far" (MCL checks I > 0 => ~TooFar), which the replay still requires *)
+SliverCase(a, b) ==
+  [kind |-> "pair", a |-> PJ(a), b |-> PJ(b), inter16 |-> Inter16(a, b), union16 |-> Union16(a, b),
+   areaA16 |-> Area16(a), areaB16 |-> Area16(b), toofar |-> FALSE, touching |-> TRUE,
+   d16 |-> D16(a, b), ra16 |-> R16(a), rb16 |-> R16(b), cls |-> Class(a, b), edge |-> SharedEdgeLine(a, b),
+   aligned |-> (a.k % 2 = 0 /\ b.k % 2 = 0), scale |-> SliverScale]
 OwnCase(bs) ==
   [kind |-> "own", boxes |-> [i \in DOMAIN bs |-> PJ(bs[i])], own |-> [i \in DOMAIN bs |-> Own(bs, i)],
    cells |-> [i \in DOMAIN bs |-> Cardinality(Cells(bs[i]))]]
@@ -51,6 +65,8 @@ Init == stage = 0 /\ c = [kind |-> "init"]
 Next ==
   \/ /\ stage = 0 /\ Mode = "pair" /\ stage' = 1 /\ \E a \in ABoxes : c' = [a |-> a]
   \/ /\ stage = 1 /\ Mode = "pair" /\ stage' = 2 /\ \E b \in BBoxes : c' = PairCase(c.a, b)
+  \/ /\ stage = 0 /\ Mode = "sliver" /\ stage' = 1 /\ \E a \in SA : c' = [a |-> a]
+  \/ /\ stage = 1 /\ Mode = "sliver" /\ stage' = 2 /\ \E b \in SB : c' = SliverCase(c.a, b)
   \/ /\ stage = 0 /\ Mode = "own" /\ stage' = 1 /\ \E a \in OBoxes({0}) : c' = [a |-> a]
   \/ /\ stage = 1 /\ Mode = "own" /\ stage' = 2
      /\ \/ c' = OwnCase(<<c.a>>)
